@@ -58,6 +58,13 @@ Theorem c10_interleave_is_deinterleave : forall (A : Type) (d : A) (l : list A),
 Proof. exact (@interleave_eq_deinterleave_lemma). Qed.
 Print Assumptions c10_interleave_is_deinterleave.
 
+(** closed form of both functions, convenient for the users of these models (frame decoder, modulators) *)
+Theorem c10_closed_form : forall (A : Type) (d : A) (l : list A),
+  interleave d l = map (fun j => nth (pi j) l d) (seq 0 368) /\
+  deinterleave d l = map (fun j => nth (pi j) l d) (seq 0 368).
+Proof. exact closed_form_thm. Qed.
+Print Assumptions c10_closed_form.
+
 (** packed-byte variants: on the MSB-first bit view they are the array variants, for every byte content *)
 Theorem c10_bytes_variant_agrees : forall b : list N,
   bytes_bits (interleave_bytes b) = interleave false (bytes_bits b) /\
